@@ -6,70 +6,110 @@
 (*      out = sum_{in} J[out][in] . in                                     *)
 (* with integer partial Jacobians (entries -2..2), variable sizes 1..2     *)
 (* (non-square blocks), whose residual Jacobian I - B over all coupling    *)
-(* variables is UNIMODULAR, so that every total derivative is an integer   *)
-(* matrix.  Instances are enumerated as initial states:                    *)
+(* variables has |determinant| in Dets (1: every total derivative is an    *)
+(* integer matrix; 2, 4: the total derivatives are DYADIC rationals,      *)
+(* carried exactly as integer numerators over a common denominator, so     *)
+(* that a truncation or rounding anywhere in the solve path is visible).   *)
+(* One discipline may be in RESIDUAL FORM (inst.res = {<<r, s>>}): it      *)
+(* reads and returns a state variable s defined by its residual            *)
+(*      r = sum_{in} J[r][in] . in = 0      (J[r][s] unimodular),          *)
+(* its other outputs are given by their partial Jacobians AT FIXED STATE   *)
+(* (s is one of their inputs) and J[s][.] is the Jacobian of the solved    *)
+(* state, -J[r][s]^-1 J[r][.]  (J[s][s] = 0): the discipline solves its    *)
+(* state equations.                                                        *)
+(* Instances are enumerated as initial states:                             *)
 (*    topology x size profile x coupling blocks (catalogue, filtered by    *)
-(*    det(I - B) = +-1) x seed of the non-coupling blocks.                 *)
+(*    det(I - B)) x seed of the non-coupling blocks.                       *)
 (*                                                                         *)
 (* Two independent definitions of the total derivatives:                   *)
-(*  (A) the CLOSED FORM  cf[o][x]: path sums  sum_k B^k A  when B is       *)
-(*      nilpotent, (I-B)^-1 A with the exact integer inverse of Mat        *)
-(*      otherwise (both when both apply: NeumannEqInverse), on the FULL    *)
-(*      system; invariant IFT states that cf satisfies the implicit        *)
-(*      function equations discipline by discipline - a complete           *)
-(*      characterisation since I - B is invertible;                        *)
+(*  (A) the CLOSED FORM  cf.b[o][x] / cf.d: path sums  sum_k B^k A  when B *)
+(*      is nilpotent, (I-B)^-1 A with the exact inverse of Mat otherwise   *)
+(*      (both when both apply: NeumannEqInverse), on the FULL system in    *)
+(*      which the state is eliminated (s = J[s][.] . inputs); invariant    *)
+(*      IFT states that cf satisfies the implicit function equations       *)
+(*      discipline by discipline AND the state equation written with the   *)
+(*      partial Jacobians of the residual - a complete characterisation    *)
+(*      since I - B is invertible;                                         *)
 (*  (B) the ASSEMBLY as jacobian_assembly.py / mda_derivatives.py /        *)
 (*      chain_rule.py structure it, action Request: minimal couplings by   *)
 (*      the two-way traversal of the graph in which each strongly coupled  *)
 (*      group is merged, differentiated inputs/outputs pushed on the       *)
-(*      disciplines (cumulative), the cache keyed by the last request,     *)
-(*      blocks laid out by sorted name and size, -I on the residual        *)
-(*      diagonal, dF/dx - dF/dy (dR/dy)^-1 dR/dx (direct) or the           *)
-(*      transposed solve per function row (adjoint), auto mode, split by   *)
-(*      variable.                                                          *)
+(*      disciplines (cumulative; states and residuals of the disciplines   *)
+(*      involved), the cache keyed by the last request, blocks laid out by *)
+(*      sorted name and size, residual rows / state columns after the      *)
+(*      couplings, -I on the residual diagonal, dF/dx - dF/dy (dR/dy)^-1   *)
+(*      dR/dx (direct) or the transposed solve per function row (adjoint), *)
+(*      auto mode, split by variable.                                      *)
 (* TLC checks (B) = (A) for every request subset, mode and request         *)
 (* history, Direct = Adjoint, subset independence, structural zeros and    *)
 (* shapes.                                                                 *)
 (*                                                                         *)
+(* The REPRESENTATION of the partial Jacobians returned by the disciplines *)
+(* (Reps: float64 / int64 arrays, float64 / int64 CSR matrices, matrix-    *)
+(* free operators, a different one per block) is a configuration dimension *)
+(* chosen with the first request (variable rep).  No definition below      *)
+(* reads rep: the value of a block is the same mathematical matrix         *)
+(* whatever its representation, which is exactly what the property says.   *)
+(*                                                                         *)
 (* inst.rules selects the selection rules of layer (B):                    *)
-(*   "asread"   the code as read today, with the conditions under which it *)
+(*   "asread"   the code as first read, with the conditions under which it *)
 (*              raises (err);                                              *)
 (*   "r3"       as read, except that a merged node hides / a member adds   *)
 (*              only the couplings of ITS OWN group (repair 3);            *)
-(*   "repaired" r3 + no coupling needed => dF/dx (repair 2) + sizes from   *)
-(*              the data, absent Jacobians are zero blocks (repair 1).     *)
+(*   "asis"     r3 + no coupling needed => dF/dx (repair 2) + sizes from   *)
+(*              the data, absent Jacobians are zero blocks (repair 1):     *)
+(*              the code as it is; differs from "repaired" only when a     *)
+(*              discipline is in residual form: dF/dy is assembled against *)
+(*              the RESIDUAL names (so dF/ds is lost) and the residual row *)
+(*              of EVERY residual-form discipline is in the system, even   *)
+(*              of one the request does not involve (a zero row when it    *)
+(*              was never linearized: singular system);                    *)
+(*   "repaired" asis + dF/dy against the STATE names (repair 4) + only the *)
+(*              residuals of the disciplines linearized with respect to    *)
+(*              their state, as those the request involves are (repair 5). *)
 (* The property clauses (invariants) are demanded of "repaired", which is  *)
-(* the oracle of the replay; "asread"/"r3" PREDICT where the present code  *)
-(* raises or returns a wrong block (configurations AsRead* are expected to *)
-(* be refuted by TLC; the replay confirms each prediction on the real      *)
-(* code and attributes it to a known finding).                             *)
+(* the oracle of the replay; the other rules PREDICT where the code        *)
+(* raises or returns a wrong block (configurations AsRead*/AsIs* are       *)
+(* expected to be refuted by TLC; the replay confirms each prediction on   *)
+(* the real code and attributes it to a known finding).                    *)
 (***************************************************************************)
 EXTENDS Integers, Sequences, FiniteSets, TLC, Mat
 
 CONSTANTS Topos,      \* topology names to enumerate
           Profiles,   \* size profiles (bit k of the profile: size of the k-th name is 2)
-          Choices,    \* indices into the coupling-block catalogue
+          Choices,    \* indices into the coupling-block catalogue (instances with det(I - B) = +-1)
+          DyChoices,  \* indices allowed for the first two coupling blocks of the other instances
+          Dets,       \* admissible values of |det(I - B)|
+          Keep,       \* {}: every admissible instance; otherwise the instances to enumerate, a set of
+                      \* KeyCode(topology, profile, coupling blocks) (a sample of a previous enumeration)
           Seeds,      \* seeds of the non-coupling blocks
-          RuleSets,   \* subset of {"asread", "r3", "repaired"}: selection rules enumerated (inst.rules)
+          RuleSets,   \* subset of {"asread", "r3", "asis", "repaired"}: selection rules enumerated (inst.rules)
           PreSets,    \* subset of {"fresh", "newton", "newtonall"}: state of the disciplines before the first
                       \* request (inst.pre)
           MaxHist,    \* number of successive requests on the same assembly
           ReqMod, ReqRes,   \* explore request r of instance i iff (hash(i) + hash(r)) % ReqMod \in ReqRes
           AdjMod,     \* thinning of the second requests adjacent to the first one (see Next)
+          Reps,       \* representations of the partial Jacobians (subset of RepSeq)
+          RepMod,     \* representation p is explored with first request r iff (hash'(i, r) + idx(p)) % RepMod = 0
+          SensMod,    \* > 0: one in SensMod of the first requests (of one function) on which a rounding to integers
+                      \* in the solve path would be visible is explored as well, with every integer-typed
+                      \* representation (0: no such selection)
           Emit        \* print INST / CASE records
 
 VARIABLES inst,   \* the system (constant along a behaviour)
           dio,    \* differentiated inputs/outputs accumulated on each discipline
           last,   \* JacobianAssembly.__last_diff_inouts
           mc,     \* JacobianAssembly.__minimal_couplings
+          mres,   \* the <<residual, state>> pairs in the linear system of the last request
           hist,   \* the requests made so far
+          rep,    \* representation of the partial Jacobians the disciplines return
           err,    \* the reasons why the code raises on the last request ({}: it does not)
-          tot     \* result of the last request: [function -> [variable -> block]]
-vars == <<inst, dio, last, mc, hist, err, tot>>
+          tot     \* result of the last request: [d |-> denominator, b |-> [function -> [variable -> numerator block]]]
+vars == <<inst, dio, last, mc, mres, hist, rep, err, tot>>
 
 ----------------------------------------------------------------------------
 (* names; the code lays blocks out by sorted(name)                          *)
-Names == <<"f0", "f1", "f2", "s", "t", "w", "x0", "x1", "y0", "y1", "y2">>
+Names == <<"f0", "f1", "f2", "r", "s", "t", "w", "x0", "x1", "y0", "y1", "y2">>
 Idx(n) == CHOOSE k \in 1..Len(Names) : Names[k] = n
 Sorted(S) == SelectSeq(Names, LAMBDA n : n \in S)
 SeqSet(s) == {s[k] : k \in 1..Len(s)}
@@ -90,10 +130,22 @@ Topo(t) ==
                           D({"x1","y0","s"}, {"s","f2"}) >>                   \* two groups in sequence
     [] t = "mid"    -> << D({"x0","s"}, {"s"}), D({"s"}, {"w","f1"}),
                           D({"w","x1","t"}, {"t","f2"}) >>                    \* group, weak, group
+    \* a discipline in residual form (state s, residual r) ...
+    [] t = "rpair"  -> << D({"x0","y1","s"}, {"y0","f0","s","r"}),
+                          D({"x0","x1","y0"}, {"y1","f1"}) >>                 \* ... in a group; f0 reads s
+    [] t = "rtail"  -> << D({"x0","y1","s"}, {"y0","s","r"}), D({"x0","y0"}, {"y1","f1"}),
+                          D({"x1","s","y0"}, {"f2"}) >>                       \* ... the weak tail reads s
+    [] t = "rweak"  -> << D({"x0","s"}, {"s","r","w"}), D({"w","y1"}, {"y0","f0"}),
+                          D({"x1","y0","s"}, {"y1","f1"}) >>                  \* ... weakly coupled head
+\* io.residual_to_state_variable of the disciplines: pairs <<residual, state>>
+Res(t) == IF t \in {"rpair", "rtail", "rweak"} THEN {<<"r", "s">>} ELSE {}
+States(res) == {p[2] : p \in res}
+Resids(res) == {p[1] : p \in res}
+ResOf(res, s) == (CHOOSE p \in res : p[2] = s)[1]
 
 AllIns(S)  == UNION {S[d].ins  : d \in 1..Len(S)}
 AllOuts(S) == UNION {S[d].outs : d \in 1..Len(S)}
-Cpl(S) == AllIns(S) \cap AllOuts(S)          \* CouplingStructure.all_couplings
+Cpl(S) == AllIns(S) \cap AllOuts(S)          \* CouplingStructure.all_couplings (the states are among them)
 DIn(S) == AllIns(S) \ AllOuts(S)             \* inputs of the MDA that can be differentiated against
 Prod(S, o) == CHOOSE d \in 1..Len(S) : o \in S[d].outs
 
@@ -105,24 +157,32 @@ ReachN(S, d, e, k) == d = e \/ (k > 0 /\ \E m \in 1..Len(S) : Edge(S, d, m) /\ R
 Reach(S, d, e) == ReachN(S, d, e, Len(S))
 Group(S, d) == {e \in 1..Len(S) : Reach(S, d, e) /\ Reach(S, e, d)}
 Nodes(S) == {Group(S, d) : d \in 1..Len(S)}
-SelfC(S, d) == S[d].ins \cap S[d].outs # {}
-Merged(S, g) == Cardinality(g) > 1 \/ \E d \in g : SelfC(S, d)
+\* CouplingStructure.is_self_coupled: a state variable does not make its discipline self-coupled
+SelfC(S, res, d) == (S[d].ins \cap S[d].outs) \ States(res) # {}
+Merged(S, res, g) == Cardinality(g) > 1 \/ \E d \in g : SelfC(S, res, d)
 GIns(S, g)  == UNION {S[d].ins  : d \in g}
 GOuts(S, g) == UNION {S[d].outs : d \in g}
 GroupC(S, g) == GIns(S, g) \cap GOuts(S, g)
-StrongC(S) == UNION {GroupC(S, g) : g \in {h \in Nodes(S) : Merged(S, h)}}   \* strong_couplings
+StrongC(S, res) == UNION {GroupC(S, g) : g \in {h \in Nodes(S) : Merged(S, res, h)}}   \* strong_couplings
 
 ----------------------------------------------------------------------------
 (* instances                                                               *)
 Bit(p, k) == (p \div (2 ^ (k - 1))) % 2
-SizeOf(S, p) == LET ns == Sorted(AllIns(S) \cup AllOuts(S))
-                IN  TLCEval([n \in SeqSet(ns) |-> 1 + Bit(p, CHOOSE k \in 1..Len(ns) : ns[k] = n)])
+\* a residual has the size of its state
+SizeOf(S, res, p) ==
+  LET ns == Sorted(AllIns(S) \cup AllOuts(S))
+      s0 == TLCEval([n \in SeqSet(ns) |-> 1 + Bit(p, CHOOSE k \in 1..Len(ns) : ns[k] = n)])
+  IN  TLCEval([n \in SeqSet(ns) |-> IF n \in Resids(res) THEN s0[(CHOOSE q \in res : q[1] = n)[2]] ELSE s0[n]])
 
 Cat11 == << <<<<0>>>>, <<<<1>>>>, <<<<-1>>>>, <<<<2>>>>, <<<<-2>>>>, <<<<1>>>> >>
 Cat12 == << <<<<1,0>>>>, <<<<0,1>>>>, <<<<1,-1>>>>, <<<<0,2>>>>, <<<<-2,1>>>>, <<<<0,0>>>> >>
 Cat21 == << <<<<1>>,<<0>>>>, <<<<0>>,<<1>>>>, <<<<1>>,<<-1>>>>, <<<<0>>,<<2>>>>, <<<<-1>>,<<2>>>>, <<<<0>>,<<0>>>> >>
 Cat22 == << <<<<0,1>>,<<0,0>>>>, <<<<0,0>>,<<0,1>>>>, <<<<0,0>>,<<-1,0>>>>,
             <<<<1,1>>,<<-1,-1>>>>, <<<<0,2>>,<<0,0>>>>, <<<<0,-1>>,<<0,1>>>> >>
+\* d r / d s of a residual-form discipline (square, to be inverted by the discipline)
+CatRS1 == << <<<<1>>>>, <<<<-1>>>>, <<<<1>>>>, <<<<-1>>>>, <<<<1>>>>, <<<<-1>>>> >>
+CatRS2 == << <<<<1,0>>,<<0,1>>>>, <<<<0,1>>,<<1,0>>>>, <<<<1,1>>,<<0,1>>>>,
+             <<<<-1,0>>,<<1,1>>>>, <<<<0,-1>>,<<1,0>>>>, <<<<1,-1>>,<<1,0>>>> >>
 CatBlock(r, c, k) == IF r = 1 THEN (IF c = 1 THEN Cat11[k] ELSE Cat12[k])
                      ELSE (IF c = 1 THEN Cat21[k] ELSE Cat22[k])
 
@@ -132,15 +192,32 @@ Gen(o, i, sd, r, c) ==
   IN  Mk(r, c, LAMBDA rr, cc :
         ((io * 7 + ii * 13 + rr * 5 + cc * 3 + sd * 11 + rr * cc * sd + io * ii * (sd + 1)) % 5) - 2)
 
-CPairs(S) == {p \in Cpl(S) \X Cpl(S) : p[2] \in S[Prod(S, p[1])].ins}     \* blocks of B
+\* the blocks taken from the catalogue: those of the coupled system (the rows of a state are the
+\* partial Jacobians of its residual)
+CRows(S, res) == (Cpl(S) \ States(res)) \cup Resids(res)
+CPairs(S, res) == {p \in CRows(S, res) \X Cpl(S) : p[2] \in S[Prod(S, p[1])].ins}
 AllPairs == [k \in 1..(Len(Names) * Len(Names)) |->
                <<Names[((k - 1) \div Len(Names)) + 1], Names[((k - 1) % Len(Names)) + 1]>>]
-PairSeq(S) == SelectSeq(AllPairs, LAMBDA p : p \in CPairs(S))              \* in sorted order
+PairSeq(S, res) == SelectSeq(AllPairs, LAMBDA p : p \in CPairs(S, res))     \* in sorted order
+CbSeq(S, res, cb) == [k \in 1..Len(PairSeq(S, res)) |-> cb[PairSeq(S, res)[k]]]
+\* an instance (up to the seed) as one integer (a configuration file cannot hold tuples)
+TopoSeq == <<"pair", "tail", "tailx", "head", "self", "solo", "cycle3", "seq", "mid", "rpair", "rtail", "rweak">>
+KeyCode(t, p, cs) == ((CHOOSE k \in 1..Len(TopoSeq) : TopoSeq[k] = t) * 512 + p) * 117649
+                     + SumTo([k \in 1..Len(cs) |-> cs[k] * 7 ^ (k - 1)], Len(cs))
 
-Jac(S, sz, cb, sd) ==
-  TLCEval([o \in AllOuts(S) |-> TLCEval([i \in S[Prod(S, o)].ins |->
-      IF <<o, i>> \in CPairs(S) THEN CatBlock(sz[o], sz[i], cb[<<o, i>>])
-      ELSE Gen(o, i, sd, sz[o], sz[i])])])
+Jac(S, res, sz, cb, sd) ==
+  LET J0 == TLCEval([o \in AllOuts(S) \ States(res) |-> TLCEval([i \in S[Prod(S, o)].ins |->
+               IF <<o, i>> \in res THEN (IF sz[o] = 1 THEN CatRS1[cb[<<o, i>>]] ELSE CatRS2[cb[<<o, i>>]])
+               ELSE IF <<o, i>> \in CPairs(S, res) THEN CatBlock(sz[o], sz[i], cb[<<o, i>>])
+               ELSE Gen(o, i, sd, sz[o], sz[i])])])
+  IN  TLCEval([o \in AllOuts(S) |->
+        IF o \in States(res)
+        THEN \* the solved state: - (d r/d s)^-1 d r/d i, and no dependency on the incoming state
+             LET r == ResOf(res, o)
+                 inv == InvUnimod(J0[r][o])
+             IN  TLCEval([i \in S[Prod(S, o)].ins |->
+                    IF i = o THEN Zero(sz[o], sz[o]) ELSE MNeg(MMul(inv, J0[r][i]))])
+        ELSE J0[o]])
 
 \* J[o][v], a zero block when v is not an input of the discipline producing o
 JB(S, sz, J, o, v) == IF v \in S[Prod(S, o)].ins THEN J[o][v] ELSE Zero(sz[o], sz[v])
@@ -156,48 +233,80 @@ RECURSIVE Neumann(_, _, _)
 Neumann(B, A, k) == IF k = 0 THEN A ELSE MAdd(A, MMul(B, Neumann(B, A, k - 1)))   \* sum_{j<=k} B^j A
 Nilpotent(B) == IsZero(MPow(B, NRows(B)))
 
+\* numerators over the common denominator d = |det(I - B)|
 ClosedForm(S, sz, J) ==
   LET C == Sorted(Cpl(S))
       X == Sorted(DIn(S))
       B == BlockOf(S, sz, J, C, C)
       A == BlockOf(S, sz, J, C, X)
       n == NRows(B)
-      dydx == IF Nilpotent(B) THEN Neumann(B, A, n - 1)
-              ELSE MMul(InvUnimod(MSub(Ident(n), B)), A)
-      T(o) == MAdd(BlockOf(S, sz, J, <<o>>, X), MMul(BlockOf(S, sz, J, <<o>>, C), dydx))
-  IN  TLCEval([o \in AllOuts(S) |->
-         LET To == T(o) IN TLCEval([x \in DIn(S) |-> SubMat(To, 0, sz[o], OffsetOf(sz, X, x), sz[x])])])
+      nil == Nilpotent(B)
+      inv == QInv(MSub(Ident(n), B))
+      d == IF nil THEN 1 ELSE inv.d
+      dydx == IF nil THEN Neumann(B, A, n - 1) ELSE MMul(inv.n, A)
+      T(o) == MAdd(MScale(d, BlockOf(S, sz, J, <<o>>, X)), MMul(BlockOf(S, sz, J, <<o>>, C), dydx))
+  IN  [d |-> d,
+       b |-> TLCEval([o \in AllOuts(S) |->
+         LET To == T(o) IN TLCEval([x \in DIn(S) |-> SubMat(To, 0, sz[o], OffsetOf(sz, X, x), sz[x])])])]
+
+\* The coupling operator of the EXECUTED disciplines (fixed-point MDAs iterate it): a residual-form
+\* discipline computes its other outputs with the state it has just solved, not with the incoming one.
+ExecB(S, res, sz, J) ==
+  LET C == Sorted(Cpl(S))
+      blk(o, i) ==
+        LET d == Prod(S, o)
+            st == S[d].outs \cap States(res)
+        IN  IF st = {} THEN JB(S, sz, J, o, i)
+            ELSE LET s == CHOOSE q \in st : TRUE
+                 IN  IF i = s THEN Zero(sz[o], sz[i])
+                     ELSE IF o = s THEN JB(S, sz, J, o, i)
+                     ELSE MAdd(JB(S, sz, J, o, i), MMul(J[o][s], JB(S, sz, J, s, i)))
+  IN  BlockMat(TLCEval([r \in 1..Len(C) |-> TLCEval([c \in 1..Len(C) |-> blk(C[r], C[c])])]))
 
 Build(t, p, cb, sd) ==
   LET S == Topo(t)
-      sz == SizeOf(S, p)
-      J == Jac(S, sz, cb, sd)
-      C == Sorted(Cpl(S))
-      B == BlockOf(S, sz, J, C, C)
-  IN  [key |-> <<t, p, [k \in 1..Len(PairSeq(S)) |-> cb[PairSeq(S)[k]]], sd>>,
-       topo |-> t, S |-> S, size |-> sz, J |-> J,
-       nilp |-> Nilpotent(B),
+      res == Res(t)
+      sz == SizeOf(S, res, p)
+      J == Jac(S, res, sz, cb, sd)
+  IN  [key |-> <<t, p, CbSeq(S, res, cb), sd>>,
+       topo |-> t, S |-> S, res |-> res, size |-> sz, J |-> J,
+       nilp |-> Nilpotent(ExecB(S, res, sz, J)),
        cf |-> ClosedForm(S, sz, J)]
 
-Unimod(t, p, cb) ==
+\* +-det(I - B) (0: singular); the seed does not enter the coupling blocks
+DetOf(t, p, cb) ==
   LET S == Topo(t)
-      sz == SizeOf(S, p)
+      sz == SizeOf(S, Res(t), p)
       C == Sorted(Cpl(S))
-      \* the seed does not enter the coupling blocks
-      B == BlockMat(TLCEval([r \in 1..Len(C) |-> TLCEval([c \in 1..Len(C) |->
-              IF <<C[r], C[c]>> \in CPairs(S) THEN CatBlock(sz[C[r]], sz[C[c]], cb[<<C[r], C[c]>>])
-              ELSE Zero(sz[C[r]], sz[C[c]])])]))
-  IN  IsUnimodular(MSub(Ident(NRows(B)), B))
+      B == BlockOf(S, sz, Jac(S, Res(t), sz, cb, 0), C, C)
+  IN  GJInv(MSub(Ident(NRows(B)), B)).d
+
+\* instances with a unimodular I - B: every block from Choices; the others: the first two blocks
+\* (sorted order) from DyChoices, the following ones the smallest of Choices
+MinChoice == CHOOSE c \in Choices : \A e \in Choices : c <= e
+UniCb(S, res) == [CPairs(S, res) -> Choices]
+DyCb(S, res) ==
+  LET ps == PairSeq(S, res)
+  IN  {[pr \in CPairs(S, res) |-> IF pr = ps[1] THEN a ELSE IF Len(ps) > 1 /\ pr = ps[2] THEN b ELSE MinChoice] :
+         a \in DyChoices, b \in DyChoices}
+Admissible(t, p, cb) ==
+  LET S == Topo(t)
+      res == Res(t)
+      uni == cb \in UniCb(S, res)
+      d == DetOf(t, p, cb)
+  IN  /\ (Keep = {} \/ KeyCode(t, p, CbSeq(S, res, cb)) \in Keep)
+      /\ \/ (uni /\ MatAbs(d) = 1)
+         \/ (cb \in DyCb(S, res) /\ MatAbs(d) \in Dets \ {1})
 
 ----------------------------------------------------------------------------
 (* (B) the code-shaped assembly                                            *)
 
 \* mda_derivatives._replace_strongly_coupled: the graph in which a node stands for each strongly
 \* coupled group; the inputs of such a node hide the strong couplings.  Computed once per instance.
-Reduced(S, Rules) ==
+Reduced(S, res, Rules) ==
   LET N == Nodes(S)
-      sc == StrongC(S)
-      mg == {g \in N : Merged(S, g)}
+      sc == StrongC(S, res)
+      mg == {g \in N : Merged(S, res, g)}
       hidden(g) == IF Rules = "asread" THEN sc ELSE GroupC(S, g)
       nin  == TLCEval([g \in N |-> IF g \in mg THEN GIns(S, g) \ hidden(g) ELSE GIns(S, g)])
       nout == TLCEval([g \in N |-> GOuts(S, g)])
@@ -213,9 +322,10 @@ Reduced(S, Rules) ==
        cpl |-> Cpl(S)]
 
 \* chain_rule.traverse_add_diff_io on the reduced graph + the per-member step of
-\* traverse_add_diff_io_mda; returns the differentiated inputs/outputs to ADD to each
-\* discipline and the minimal couplings
-Traverse(S, R, ri, ro) ==
+\* traverse_add_diff_io_mda (+ states and residuals of the disciplines involved); returns the
+\* differentiated inputs/outputs to ADD to each discipline and the minimal couplings (the states are not
+\* couplings)
+Traverse(S, R, res, ri, ro) ==
   LET N == R.N
       IOe(e) == R.nout[e[1]] \cap R.nin[e[2]]                      \* the "io" attribute of an edge
       inSrc  == {g \in N : R.nin[g] \cap ri # {}}
@@ -238,15 +348,17 @@ Traverse(S, R, ri, ro) ==
       mo == TLCEval([g \in N |->
                (IF g \in both THEN do[g] \cup (IF di[g] # {} THEN initO(g) ELSE {}) ELSE {})
                \cup (IF g \in special THEN initO(g) ELSE {})])
+      \* the residual pairs of discipline d
+      rs(d) == {p \in res : p[1] \in S[d].outs}
       dI(d) == LET g == R.grp[d] IN
                IF g \notin nodes THEN {}
-               ELSE IF g \in R.mg THEN (mi[g] \cup R.added[g]) \cap S[d].ins ELSE mi[g]
+               ELSE (IF g \in R.mg THEN (mi[g] \cup R.added[g]) \cap S[d].ins ELSE mi[g]) \cup States(rs(d))
       dO(d) == LET g == R.grp[d] IN
                IF g \notin nodes THEN {}
-               ELSE IF g \in R.mg THEN (mo[g] \cup R.added[g]) \cap S[d].outs ELSE mo[g]
+               ELSE (IF g \in R.mg THEN (mo[g] \cup R.added[g]) \cap S[d].outs ELSE mo[g]) \cup Resids(rs(d))
       add == TLCEval([d \in 1..Len(S) |-> [i |-> dI(d), o |-> dO(d)]])
       names == UNION {mi[g] \cup mo[g] : g \in nodes} \cup UNION {add[d].i \cup add[d].o : d \in 1..Len(S)}
-  IN  [add |-> add, mc |-> names \cap R.cpl]
+  IN  [add |-> add, mc |-> (names \cap R.cpl) \ States(res)]
 
 Linearized(dd, d) == dd[d].i # {} /\ dd[d].o # {}
 \* the block d o / d v is present in the Jacobian of the discipline producing o
@@ -264,44 +376,64 @@ Assemble(I, dd, rows, cols, residual) ==
                ELSE MNeg(Ident(I.size[o])))                                    \* -I on the residual diagonal
          ELSE (IF HasJ(I, dd, o, v) THEN I.J[o][v] ELSE z)])]))
 
-\* CoupledSystem._direct_mode / _adjoint_mode, then split_jac
-Total(I, dd, cpl, ri, ro, mode) ==
+\* the residual pairs of the linear system.  The code as it is: every residual of the MDA.  Repaired:
+\* those whose discipline is linearized with respect to its state (a discipline that the request
+\* involves always is; the row of another one would be null)
+SysResRepaired(I, dd) == {p \in I.res : HasJ(I, dd, p[1], p[2])}
+SysRes(I, dd) == IF I.rules # "repaired" THEN I.res ELSE SysResRepaired(I, dd)
+\* rows / columns of the linear system: the minimal couplings, then the residuals / the states
+SysRows(cpl, rs) == Sorted(cpl) \o Sorted(Resids(rs))
+SysCols(cpl, rs) == Sorted(cpl) \o Sorted(States(rs))
+
+\* CoupledSystem._direct_mode / _adjoint_mode, then split_jac; numerators over the denominator
+\* d = |det dR/dy| (0: the system is singular, the blocks are then meaningless)
+Total(I, dd, cpl, rs, ri, ro, mode) ==
   LET xs == Sorted(ri)
       fs == Sorted(ro)
-      ys == Sorted(cpl)
+      rows == SysRows(cpl, rs)
+      cols == SysCols(cpl, rs)
+      \* dF/dy: against the state names ("repaired"), against the residual names (the code as it is)
+      fcols == IF I.rules = "repaired" THEN cols ELSE rows
       m  == IF mode # "auto" THEN mode
             ELSE IF Dim(I.size, xs) <= Dim(I.size, fs) THEN "direct" ELSE "adjoint"
-      dRdx == Assemble(I, dd, ys, xs, TRUE)
-      dRdy == Assemble(I, dd, ys, ys, TRUE)
+      dRdx == Assemble(I, dd, rows, xs, TRUE)
+      dRdy == Assemble(I, dd, rows, cols, TRUE)
       \* direct: dy/dx = dRdy^-1 (-dRdx), one solve per column of dRdx, shared by all functions
-      dydx == MMul(InvUnimod(dRdy), MNeg(dRdx))
+      gy == QInv(dRdy)
+      dydx == MMul(gy.n, MNeg(dRdx))
       \* adjoint: the matrix handed to the solver is dRdy^T
-      invT == InvUnimod(MT(dRdy))
+      gt == QInv(MT(dRdy))
       dRdxT == MT(dRdx)
+      den == IF rows = <<>> THEN 1 ELSE IF m = "direct" THEN gy.d ELSE gt.d
       dFdx(f) == Assemble(I, dd, <<f>>, xs, FALSE)
       full(f) ==
-        IF ys = <<>> THEN dFdx(f)                         \* no coupling involved (repaired rule)
-        ELSE LET dFdy == Assemble(I, dd, <<f>>, ys, FALSE)
+        IF rows = <<>> THEN dFdx(f)                       \* no coupling involved (repaired rule)
+        ELSE LET dFdy == Assemble(I, dd, <<f>>, fcols, FALSE)
              IN  IF m = "direct"
                  THEN \* dF/dx + dF/dy dy/dx
-                      MAdd(dFdx(f), MMul(dFdy, dydx))
+                      MAdd(MScale(den, dFdx(f)), MMul(dFdy, dydx))
                  ELSE \* adjoint_i = (dRdy^T)^-1 (-dFdy[i,:]^T);  row i = dFdx[i,:] + (dRdx^T adjoint_i)^T
-                      MAdd(dFdx(f), MT(MMul(dRdxT, MMul(invT, MNeg(MT(dFdy))))))
-  IN  TLCEval([f \in ro |->
+                      MAdd(MScale(den, dFdx(f)), MT(MMul(dRdxT, MMul(gt.n, MNeg(MT(dFdy))))))
+  IN  [d |-> den,
+       b |-> TLCEval([f \in ro |->
          LET Tf == full(f) IN
-         TLCEval([x \in ri |-> SubMat(Tf, 0, I.size[f], OffsetOf(I.size, xs, x), I.size[x])])])
+         TLCEval([x \in ri |-> SubMat(Tf, 0, I.size[f], OffsetOf(I.size, xs, x), I.size[x])])])]
+
+\* equality of two results on the blocks (fs, xs), as rationals
+SameBlocks(a, b, fs, xs) == \A f \in fs : \A x \in xs : QEq(a.b[f][x], a.d, b.b[f][x], b.d)
 
 \* the full request on a fresh assembly, in both modes (for SubsetIndependence)
 WithAll(I0, rules, pre) ==
-  LET I == [key |-> I0.key, topo |-> I0.topo, S |-> I0.S, size |-> I0.size, J |-> I0.J,
-            nilp |-> I0.nilp, cf |-> I0.cf,
-            R |-> Reduced(I0.S, rules), prod |-> TLCEval([o \in AllOuts(I0.S) |-> Prod(I0.S, o)])]
-      tr == Traverse(I.S, I.R, DIn(I.S), AllOuts(I.S))
-  IN  [key |-> I.key, rules |-> rules, pre |-> pre, topo |-> I.topo, S |-> I.S, R |-> I.R, prod |-> I.prod,
-       size |-> I.size, J |-> I.J,
+  LET I == [key |-> I0.key, topo |-> I0.topo, S |-> I0.S, res |-> I0.res, size |-> I0.size, J |-> I0.J,
+            nilp |-> I0.nilp, cf |-> I0.cf, rules |-> rules,
+            R |-> Reduced(I0.S, I0.res, rules), prod |-> TLCEval([o \in AllOuts(I0.S) |-> Prod(I0.S, o)])]
+      tr == Traverse(I.S, I.R, I.res, DIn(I.S), AllOuts(I.S))
+      rs == SysRes(I, tr.add)
+  IN  [key |-> I.key, rules |-> rules, pre |-> pre, topo |-> I.topo, S |-> I.S, res |-> I.res, R |-> I.R,
+       prod |-> I.prod, size |-> I.size, J |-> I.J,
        nilp |-> I.nilp, cf |-> I.cf,
-       allD |-> Total(I, tr.add, tr.mc, DIn(I.S), AllOuts(I.S), "direct"),
-       allA |-> Total(I, tr.add, tr.mc, DIn(I.S), AllOuts(I.S), "adjoint")]
+       allD |-> Total(I, tr.add, tr.mc, rs, DIn(I.S), AllOuts(I.S), "direct"),
+       allA |-> Total(I, tr.add, tr.mc, rs, DIn(I.S), AllOuts(I.S), "adjoint")]
 
 \* why the code as read raises: the set of reasons ({} = it does not).  The first one met in the
 \* order of total_derivatives decides the exception (unknown_size: ValueError in compute_sizes;
@@ -314,126 +446,218 @@ Raises(I, dd, cpl, ri, ro) ==
   \cup (IF \E o \in cpl \cup ro : ~HasRow(I, dd, o) THEN {"not_linearized"} ELSE {})   \* disciplines[f].jac[f]
 
 ----------------------------------------------------------------------------
+\* (the coupling blocks enter the hash: the instances of a topology do not select the same requests)
 InstHash(I) == I.key[2] * 7 + I.key[4] * 3 + Len(I.S)
+               + SumTo([k \in 1..Len(I.key[3]) |-> (k * k + 1) * I.key[3][k]], Len(I.key[3]))
 SetHash(s) == SumTo([k \in 1..Len(Sorted(s)) |-> Idx(Sorted(s)[k]) * Idx(Sorted(s)[k])], Len(Sorted(s)))
 ReqHash(ri, ro, m) == SetHash(ri) * 5 + SetHash(ro) * 3 + (IF m = "direct" THEN 0 ELSE IF m = "adjoint" THEN 1 ELSE 2)
 Modes == {"direct", "adjoint", "auto"}
 
+\* representations of a partial Jacobian: NumPy array / SciPy CSR matrix of float64 or int64 entries,
+\* matrix-free gemseo JacobianOperator; "mixed": block (o, i) in the representation MixedRep(o, i)
+RepSeq == <<"dense_f64", "dense_i64", "sparse_f64", "sparse_i64", "operator", "mixed">>
+RepIdx(p) == CHOOSE k \in 1..Len(RepSeq) : RepSeq[k] = p
+MixedRep(o, i) == RepSeq[((Idx(o) * 3 + Idx(i)) % 5) + 1]
+IntTyped(p) == p \in {"dense_i64", "sparse_i64"}
+
 NoDio(S) == [d \in 1..Len(S) |-> [i |-> {}, o |-> {}]]
 \* A Newton MDA (MDANewtonRaphson._set_differentiated_ios, also as inner MDA of an MDAChain or second
 \* stage of MDAGSNewton) has already asked each discipline of a strongly coupled group for the
-\* Jacobian of its output couplings with respect to its input couplings.
-NewtonDio(S) ==
+\* Jacobian of its output couplings (and of its residual, if its state is one of them) with respect to
+\* its input couplings.
+NewtonDio(S, res) ==
   [d \in 1..Len(S) |->
      LET g == Group(S, d)
          ci == S[d].ins \cap GroupC(S, g)
          co == S[d].outs \cap GroupC(S, g)
-     IN  IF Merged(S, g) /\ ci # {} /\ co # {} THEN [i |-> ci, o |-> co] ELSE [i |-> {}, o |-> {}]]
+         cr == {p[1] : p \in {q \in res : q[2] \in co}}
+     IN  IF Merged(S, res, g) /\ ci # {} /\ co # {} THEN [i |-> ci, o |-> co \cup cr] ELSE [i |-> {}, o |-> {}]]
 
 \* A Newton MDA over the WHOLE structure (MDANewtonRaphson, MDAGSNewton; accepted only when every
 \* discipline is strongly coupled) resolves all the strong couplings at once: a discipline is also
 \* linearized with respect to the strong couplings it reads from ANOTHER group.  Differs from
 \* NewtonDio only when there are several groups; enumerated only then (pre = "newtonall").
-NewtonAllDio(S) ==
+NewtonAllDio(S, res) ==
   [d \in 1..Len(S) |->
-     LET ci == S[d].ins \cap StrongC(S)
-         co == S[d].outs \cap StrongC(S)
+     LET ci == S[d].ins \cap StrongC(S, res)
+         co == S[d].outs \cap StrongC(S, res)
      IN  IF ci # {} /\ co # {} THEN [i |-> ci, o |-> co] ELSE [i |-> {}, o |-> {}]]
-WholeNewtonDiffers(S) ==
-  /\ \A g \in Nodes(S) : Merged(S, g)
+WholeNewtonDiffers(S, res) ==
+  /\ \A g \in Nodes(S) : Merged(S, res, g)
   /\ Cardinality(Nodes(S)) > 1
 
 Init ==
   /\ \E t \in Topos :
      \E p \in {q % (2 ^ Cardinality(AllIns(Topo(t)) \cup AllOuts(Topo(t)))) : q \in Profiles} :
-       /\ \E cb \in [CPairs(Topo(t)) -> Choices] :
-            /\ Unimod(t, p, cb)
+       /\ \E cb \in UniCb(Topo(t), Res(t)) \cup DyCb(Topo(t), Res(t)) :
+            /\ Admissible(t, p, cb)
             /\ \E sd \in Seeds, rl \in RuleSets, pr \in PreSets :
-                 /\ (pr = "newtonall" => WholeNewtonDiffers(Topo(t)))
+                 /\ (pr = "newtonall" => WholeNewtonDiffers(Topo(t), Res(t)))
+                 \* the rules as first read are those of a code that is no longer there: kept for the
+                 \* systems on which they were read; "asis" differs from "repaired" on the others only
+                 /\ (rl \in {"asread", "r3"} => Res(t) = {})
+                 /\ (rl = "asis" => Res(t) # {})
                  /\ inst = WithAll(Build(t, p, cb, sd), rl, pr)
-  /\ dio = IF inst.pre = "newton" THEN NewtonDio(inst.S)
-           ELSE IF inst.pre = "newtonall" THEN NewtonAllDio(inst.S)
+  /\ dio = IF inst.pre = "newton" THEN NewtonDio(inst.S, inst.res)
+           ELSE IF inst.pre = "newtonall" THEN NewtonAllDio(inst.S, inst.res)
            ELSE NoDio(inst.S)
   /\ last = <<{}, {}>>
   /\ mc = {}
+  /\ mres = {}
   /\ hist = <<>>
+  /\ rep = "unset"
   /\ err = {}
   /\ tot = <<>>
 
-Request(ri, ro, mode) ==
+Request(ri, ro, mode, rp) ==
   LET S == inst.S
       fresh == last # <<ri, ro>>                       \* _compute_diff_ios_and_couplings
-      tr == Traverse(S, inst.R, ri, ro)
+      tr == Traverse(S, inst.R, inst.res, ri, ro)
       nd == IF fresh THEN TLCEval([d \in 1..Len(S) |-> [i |-> dio[d].i \cup tr.add[d].i,
                                                         o |-> dio[d].o \cup tr.add[d].o]])
             ELSE dio
       nm == IF fresh THEN tr.mc ELSE mc
-      e  == IF inst.rules = "repaired" THEN {} ELSE Raises(inst, nd, nm, ri, ro)
+      nr == SysRes(inst, nd)
+      T  == Total(inst, nd, nm, nr, ri, ro, mode)
+      e  == IF inst.rules \in {"repaired", "asis"} THEN (IF T.d = 0 THEN {"singular"} ELSE {})
+            ELSE Raises(inst, nd, nm, ri, ro)
   IN  /\ dio' = nd
       /\ last' = <<ri, ro>>
       /\ mc' = nm
+      /\ mres' = nr
       /\ hist' = Append(hist, <<ri, ro, mode>>)
+      /\ rep' = rp
       /\ err' = e
-      /\ tot' = IF e = {} THEN Total(inst, nd, nm, ri, ro, mode) ELSE <<>>
+      /\ tot' = IF e = {} THEN T ELSE <<>>
       /\ UNCHANGED inst
 
 \* Requests explored: those selected by the hash filter and, as SECOND request, also (one in
 \* AdjMod of) those that share exactly one of the two sets (variables, functions) with the first
 \* request - the histories on which a wrongly keyed cache of the minimal couplings would show.
+\* The representation of the Jacobians is chosen with the first request and kept.
 Selected(ri, ro, m) == (InstHash(inst) + ReqHash(ri, ro, m)) % ReqMod \in ReqRes
 Adjacent(ri, ro, m) ==
   /\ Len(hist) = 1
   /\ (ri = hist[1][1]) # (ro = hist[1][2])
   /\ m = hist[1][3]
   /\ (InstHash(inst) + ReqHash(ri, ro, m)) % AdjMod = 0
-Next ==
-  /\ Len(hist) < MaxHist
-  /\ \E ri \in SUBSET DIn(inst.S) \ {{}}, ro \in SUBSET AllOuts(inst.S) \ {{}}, m \in Modes :
-       /\ (Selected(ri, ro, m) \/ Adjacent(ri, ro, m))
-       /\ Request(ri, ro, m)
+\* (another hash than the one of Selected, reduced modulo a prime: the two selections must not be
+\* correlated, nor the representation with the mode)
+RepHash(ri, ro, m) == ((InstHash(inst) * 17 + ReqHash(ri, ro, m) * 23 + SetHash(ro) * 7 + Cardinality(ro)) % 101)
+                      + ((SetHash(ri) * 3 + SetHash(ro) + inst.key[4]) % 7)
+RepSelected(ri, ro, m, rp) ==
+  IF Len(hist) = 0
+  THEN rp \in Reps /\ (RepHash(ri, ro, m) + RepIdx(rp)) % RepMod = 0
+  ELSE rp = rep
+\* candidates of the selection by sensitivity (see Next)
+SensCandidate(ri, ro, m) ==
+  /\ SensMod > 0 /\ Len(hist) = 0
+  /\ inst.rules # "asread" /\ inst.cf.d > 1
+  /\ Cardinality(ro) = 1
+  /\ (InstHash(inst) + ReqHash(ri, ro, m)) % SensMod = 0
 
-Spec == Init /\ [][Next]_vars
-
-----------------------------------------------------------------------------
 (* the request the state answers                                            *)
 Answered == Len(hist) > 0 /\ err = {} /\ inst.rules = "repaired"
 RI == hist[Len(hist)][1]
 RO == hist[Len(hist)][2]
 RM == hist[Len(hist)][3]
 
+
+\* Where a rounding to integers somewhere in the solve path would show.  The partial Jacobians may be
+\* integer-typed arrays; the assembly completes the first block row and the first block column of a
+\* matrix with (float) empty blocks, so an assembled matrix is integer-typed only if the disciplines
+\* return every block of both.  Under the repaired rules (IR), whatever the rules of the instance:
+\*   "dydx"    direct mode: the solutions dy/dx are not integers, every block of the first block row
+\*             and column of dR/dx is returned by a discipline;
+\*   "adjoint" adjoint mode: an adjoint vector of a function is not an integer vector, every block of
+\*             dF/dy of that function is returned;
+\*   "result"  a total derivative is not an integer matrix, every block of dF/dx of that function is
+\*             returned
+NoSens == [dydx |-> FALSE, adjoint |-> FALSE, result |-> FALSE]
+SensOf(dd, cpl, rs, ri, ro, m) ==
+  LET IR == [inst EXCEPT !.rules = "repaired"]
+      rows == SysRows(cpl, rs)
+      cols == SysCols(cpl, rs)
+      xs == Sorted(ri)
+      mm == IF m # "auto" THEN m
+            ELSE IF Dim(inst.size, xs) <= Dim(inst.size, Sorted(ro)) THEN "direct" ELSE "adjoint"
+      dRdx == Assemble(IR, dd, rows, xs, TRUE)
+      dRdy == Assemble(IR, dd, rows, cols, TRUE)
+      gy == QInv(dRdy)
+      gt == QInv(MT(dRdy))
+      whole(f, vs) == \A k \in 1..Len(vs) : HasJ(IR, dd, f, vs[k])
+      T == Total(IR, dd, cpl, rs, ri, ro, m)
+  IN  [dydx |-> /\ rows # <<>> /\ mm = "direct"
+                /\ \A k \in 1..Len(rows) : HasJ(IR, dd, rows[k], xs[1])
+                /\ \A k \in 1..Len(xs) : HasJ(IR, dd, rows[1], xs[k])
+                /\ gy.d > 1 /\ NonInteger(MMul(gy.n, MNeg(dRdx)), gy.d),
+       adjoint |-> /\ rows # <<>> /\ mm = "adjoint"
+                   /\ \E f \in ro : /\ whole(f, cols)
+                                    /\ gt.d > 1
+                                    /\ NonInteger(MMul(gt.n, MNeg(MT(Assemble(IR, dd, <<f>>, cols, FALSE)))), gt.d),
+       result |-> \E f \in ro : /\ whole(f, xs)
+                                /\ T.d > 1
+                                /\ \E x \in ri : NonInteger(T.b[f][x], T.d)]
+Sensitive ==   \* of the state reached by the last request
+  IF err # {} THEN NoSens ELSE SensOf(dio, mc, mres, RI, RO, RM)
+\* of a first request, before it is made (the rules other than "asread" select the same couplings: the
+\* same requests are explored under each of them)
+SensitiveRequest(ri, ro, m) ==
+  LET tr == Traverse(inst.S, inst.R, inst.res, ri, ro)
+      nd == TLCEval([d \in 1..Len(inst.S) |-> [i |-> dio[d].i \cup tr.add[d].i, o |-> dio[d].o \cup tr.add[d].o]])
+      sn == SensOf(nd, tr.mc, SysResRepaired(inst, nd), ri, ro, m)
+  IN  sn.dydx \/ sn.adjoint \/ sn.result
+
+Next ==
+  /\ Len(hist) < MaxHist
+  /\ \E ri \in SUBSET DIn(inst.S) \ {{}}, ro \in SUBSET AllOuts(inst.S) \ {{}}, m \in Modes :
+       \/ /\ (Selected(ri, ro, m) \/ Adjacent(ri, ro, m))
+          /\ \E rp \in Reps : RepSelected(ri, ro, m, rp) /\ Request(ri, ro, m, rp)
+       \/ /\ SensCandidate(ri, ro, m)
+          /\ SensitiveRequest(ri, ro, m)
+          /\ \E rp \in Reps : (RepSelected(ri, ro, m, rp) \/ IntTyped(rp)) /\ Request(ri, ro, m, rp)
+
+Spec == Init /\ [][Next]_vars
+
+----------------------------------------------------------------------------
 \* (A) is sound: the closed form satisfies the implicit-function equations, discipline by
 \* discipline:  d o/d x = J[o][x] + sum_{coupling c read by the discipline} J[o][c] . d c/d x
+\* and the state equation: the total derivative of a residual is zero.
 RECURSIVE SumBlocks(_, _, _)
 SumBlocks(f, seq, z) == IF seq = <<>> THEN z ELSE MAdd(f[seq[1]], SumBlocks(f, Tail(seq), z))
 IFT ==
   LET S == inst.S
       sz == inst.size
-  IN  \A o \in AllOuts(S) : \A x \in DIn(S) :
-        inst.cf[o][x] =
-          MAdd(JB(S, sz, inst.J, o, x),
-               SumBlocks([c \in Cpl(S) |-> MMul(JB(S, sz, inst.J, o, c), inst.cf[c][x])],
-                         Sorted(Cpl(S)), Zero(sz[o], sz[x])))
+      cf == inst.cf
+  IN  /\ cf.d > 0
+      /\ \A o \in AllOuts(S) : \A x \in DIn(S) :
+           cf.b[o][x] =
+             MAdd(MScale(cf.d, JB(S, sz, inst.J, o, x)),
+                  SumBlocks([c \in Cpl(S) |-> MMul(JB(S, sz, inst.J, o, c), cf.b[c][x])],
+                            Sorted(Cpl(S)), Zero(sz[o], sz[x])))
+      /\ \A r \in Resids(inst.res) : \A x \in DIn(S) : IsZero(cf.b[r][x])
 
 \* path sums and the inverse agree where both apply
 NeumannEqInverse ==
-  inst.nilp =>
-    LET S == inst.S
-        C == Sorted(Cpl(S))
-        X == Sorted(DIn(S))
-        B == BlockOf(S, inst.size, inst.J, C, C)
-        A == BlockOf(S, inst.size, inst.J, C, X)
-    IN  Neumann(B, A, NRows(B) - 1) = MMul(InvUnimod(MSub(Ident(NRows(B)), B)), A)
+  LET S == inst.S
+      C == Sorted(Cpl(S))
+      X == Sorted(DIn(S))
+      B == BlockOf(S, inst.size, inst.J, C, C)
+      A == BlockOf(S, inst.size, inst.J, C, X)
+      inv == QInv(MSub(Ident(NRows(B)), B))
+  IN  Nilpotent(B) => (inv.d = 1 /\ Neumann(B, A, NRows(B) - 1) = MMul(inv.n, A))
 
 \* (B) = (A) on the requested blocks, whatever the history: also request-subset independence
 AssembledIsClosedForm ==
-  Answered => \A f \in RO : \A x \in RI : tot[f][x] = inst.cf[f][x]
+  Answered => SameBlocks(tot, inst.cf, RO, RI)
 
-\* the residual sub-system selected by the minimal couplings is unimodular, and the integer matrix
-\* used as its inverse is its inverse
-SubsystemUnimodular ==
-  (Answered /\ mc # {}) =>
-     LET M == Assemble(inst, dio, Sorted(mc), Sorted(mc), TRUE)
-     IN  IsUnimodular(M) /\ MMul(M, InvUnimod(M)) = Ident(NRows(M))
+\* the residual sub-system selected by the minimal couplings (and the residuals) is regular, its
+\* determinant is one of those admitted, and the matrix used as its inverse is its inverse
+SubsystemRegular ==
+  (Answered /\ SysRows(mc, mres) # <<>>) =>
+     LET M == Assemble(inst, dio, SysRows(mc, mres), SysCols(mc, mres), TRUE)
+         g == QInv(M)
+     IN  g.d \in Dets /\ MMul(M, g.n) = MScale(g.d, Ident(NRows(M)))
 
 \* the Gauss-Jordan inverse agrees with determinant and adjugate by cofactors (definitions of Mat);
 \* factorial cost: checked on the full residual matrix of the instances, in the initial states only
@@ -447,47 +671,62 @@ InverseSound ==
 \* the other mode gives the same blocks; "auto" is one of the two
 DirectEqAdjoint ==
   Answered =>
-    IF RM = "auto"
-    THEN tot \in {Total(inst, dio, mc, RI, RO, "direct"), Total(inst, dio, mc, RI, RO, "adjoint")}
-    ELSE tot = Total(inst, dio, mc, RI, RO, IF RM = "direct" THEN "adjoint" ELSE "direct")
+    LET TD == Total(inst, dio, mc, mres, RI, RO, "direct")
+        TA == Total(inst, dio, mc, mres, RI, RO, "adjoint")
+    IN  IF RM = "auto" THEN tot \in {TD, TA} /\ SameBlocks(TD, TA, RO, RI)
+        ELSE SameBlocks(tot, IF RM = "direct" THEN TA ELSE TD, RO, RI)
 
 \* Sub(Total(all)) = Total(sub): the full request on a fresh assembly (both modes), restricted
 SubsetIndependence ==
-  Answered => \A f \in RO : \A x \in RI : (tot[f][x] = inst.allD[f][x] /\ tot[f][x] = inst.allA[f][x])
+  Answered => (SameBlocks(tot, inst.allD, RO, RI) /\ SameBlocks(tot, inst.allA, RO, RI))
 
 \* a function that no path links to a variable has a zero block of the right shape
 DReach(S, x, f) == \E d \in 1..Len(S) : x \in S[d].ins /\ Reach(S, d, Prod(S, f))
 StructuralZeros ==
   Answered => \A f \in RO : \A x \in RI :
-     (~DReach(inst.S, x, f)) => tot[f][x] = Zero(inst.size[f], inst.size[x])
+     (~DReach(inst.S, x, f)) => tot.b[f][x] = Zero(inst.size[f], inst.size[x])
 Shapes ==
-  Answered => \A f \in RO : \A x \in RI : IsMat(tot[f][x], inst.size[f], inst.size[x])
+  Answered => \A f \in RO : \A x \in RI : IsMat(tot.b[f][x], inst.size[f], inst.size[x])
 
 \* the code never raises on a request the property quantifies over: holds by construction of the
 \* repaired rules, REFUTED for the rules as read (configurations with AsReadNoRaise, expected to fail)
+\* and for the code as it is on residual-form disciplines (AsIsNoRaise)
 NoRaise == inst.rules = "repaired" => err = {}
 AsReadNoRaise == err = {}
+AsIsNoRaise == err = {}
 \* the rules as read, when they do not raise, give the closed form: holds for the first request on
 \* FRESH disciplines, REFUTED for a second request on the same assembly and for a first request when
 \* a Newton MDA has prepared the disciplines (AsReadValues)
 AsReadFreshIsRight ==
-  (Len(hist) = 1 /\ err = {} /\ inst.pre = "fresh") => \A f \in RO : \A x \in RI : tot[f][x] = inst.cf[f][x]
+  (Len(hist) = 1 /\ err = {} /\ inst.pre = "fresh" /\ inst.rules # "asis") => SameBlocks(tot, inst.cf, RO, RI)
 AsReadValues ==
-  (Len(hist) > 0 /\ err = {}) => \A f \in RO : \A x \in RI : tot[f][x] = inst.cf[f][x]
+  (Len(hist) > 0 /\ err = {}) => SameBlocks(tot, inst.cf, RO, RI)
+\* the code as it is gives the closed form when it answers: REFUTED (a function that reads a state)
+AsIsValues ==
+  (Len(hist) > 0 /\ err = {}) => SameBlocks(tot, inst.cf, RO, RI)
 
 \* the minimal couplings are a cache of the traversal for the last request
-CacheCoherent == Len(hist) > 0 => mc = Traverse(inst.S, inst.R, last[1], last[2]).mc
+CacheCoherent ==
+  Len(hist) > 0 =>
+     mc = Traverse(inst.S, inst.R, inst.res, last[1], last[2]).mc
+
+\* the representation is a configuration: one of Reps from the first request on
+RepChosen == (Len(hist) = 0 /\ rep = "unset") \/ (Len(hist) > 0 /\ rep \in Reps)
 
 ----------------------------------------------------------------------------
 (* records for the replay on the real code                                 *)
-\* the blocks of tot are those of the selected residual system: its matrix is unimodular (under the
-\* rules as read the selection may be a system on which the integer inverse of Mat does not apply;
-\* the prediction is then only "the code answers", not which blocks)
+\* the blocks of tot are those of the selected residual system: its matrix is regular (under the
+\* rules as read the selection may be a singular system; the prediction is then only "the code
+\* answers", not which blocks)
 SolvedExactly ==
-  (err = {} /\ mc # {}) => IsUnimodular(Assemble(inst, dio, Sorted(mc), Sorted(mc), TRUE))
+  (err = {} /\ SysRows(mc, mres) # <<>>) =>
+     QInv(Assemble(inst, dio, SysRows(mc, mres), SysCols(mc, mres), TRUE)).d # 0
+MixedMap == [o \in AllOuts(inst.S) |-> [i \in inst.S[inst.prod[o]].ins |-> MixedRep(o, i)]]
 EmitOK ==
   IF ~Emit THEN TRUE
   ELSE IF Len(hist) = 0
-       THEN PrintT(<<"INST", inst.key, inst.rules, inst.pre, inst.S, inst.size, inst.J, inst.nilp, inst.R.N, inst.R.mg, inst.cf>>)
-       ELSE PrintT(<<"CASE", inst.key, inst.rules, inst.pre, hist, err, mc, tot, SolvedExactly>>)
+       THEN PrintT(<<"INST", inst.key, inst.rules, inst.pre, inst.S, inst.size, inst.J, inst.nilp, inst.R.N, inst.R.mg,
+                     inst.cf, inst.res, MixedMap, KeyCode(inst.key[1], inst.key[2], inst.key[3])>>)
+       ELSE PrintT(<<"CASE", inst.key, inst.rules, inst.pre, hist, err, mc, tot, SolvedExactly, rep,
+                     IF inst.rules = "repaired" THEN Sensitive ELSE NoSens>>)
 =============================================================================
